@@ -794,11 +794,11 @@ def _list_multiplication_order(ctx, repo, left_sign):
 
 
 def _pow_carries_phase(ctx, repo):
-    """C14.m - PauliString.__pow__: every result computed for a unit-modulus coefficient uses the phase of that coefficient."""
+    """C14.n - PauliString.__pow__: every result computed for a unit-modulus coefficient uses the phase of that coefficient."""
     from ..flow import PathWalker
-    ctx.decided.append('C14.m PauliString.__pow__: after the coefficient has been split into modulus and phase, every return that is not a refusal depends on the phase (the one-qubit shortcut '
+    ctx.decided.append('C14.n PauliString.__pow__: after the coefficient has been split into modulus and phase, every return that is not a refusal depends on the phase (the one-qubit shortcut '
                        'as well as the phasor)')
-    ctx.rule('C14.m', 'the phase is raised to the power too: in PauliString.__pow__, on every path after `r, phase = cmath.polar(self.coefficient)` each returned value other than '
+    ctx.rule('C14.n', 'the phase is raised to the power too: in PauliString.__pow__, on every path after `r, phase = cmath.polar(self.coefficient)` each returned value other than '
              'NotImplemented / self depends on `phase`, or sits under a test that the phase is zero - (c P)**t = c**t P**t', floor=2, style='TNT')
     ci = repo.cls('cirq.ops.pauli_string.PauliString')
     fn = ci.methods.get('__pow__')
@@ -821,7 +821,7 @@ def _pow_carries_phase(ctx, repo):
         zero_guard = any(pol and isinstance(a, ast.Compare) and isinstance(a.left, ast.Name) and a.left.id == ph and isinstance(a.ops[0], ast.Eq)
                          and isinstance(a.comparators[0], ast.Constant) and a.comparators[0].value == 0 for a, pol in dominating_atoms(par, r, fn))
         ok = uses or zero_guard
-        ctx.ob('C14.m', f'{ci.qual}.__pow__:return#{k}', ok, '' if ok else
+        ctx.ob('C14.n', f'{ci.qual}.__pow__:return#{k}', ok, '' if ok else
                f'`return {txt[:70]}` ignores `{ph}`, the phase of the coefficient: (-X)**3 comes out as X, (1j*X)**2 as the identity', ci.mod.rel, r.lineno)
     if k == 0:
         raise AnalysisError('PauliString.__pow__: no return after the polar split')
